@@ -263,7 +263,13 @@ INLINE_SAFE = {
 
 
 def _inline_safe(prop, ctx0):
-    pats = [re.compile(p) for p in INLINE_SAFE.get(prop, [])]
+    extra = []
+    try:      # a rule module may list further inline-safe clauses of its own (module attribute INLINE_SAFE)
+        import importlib
+        extra = list(getattr(importlib.import_module("rules.%s" % prop.lower()), "INLINE_SAFE", []))
+    except Exception:
+        pass
+    pats = [re.compile(p) for p in INLINE_SAFE.get(prop, []) + extra]
     return all(any(p.search(v["clause"]) for p in pats) for v in ctx0.viol)
 
 
